@@ -39,16 +39,16 @@ theorem split_static_sublist_ref (ids ref : List FnId) :
   | case5 f fs r rs h1 h2 ih =>
     have : f.hash = r.hash := by omega
     simp only [List.map_cons, this]
-    exact List.Sublist.cons₂ _ ih
+    exact List.Sublist.cons_cons _ ih
 
 /-- both output lists keep the (sorted) input order -/
 theorem split_sublists (ids ref : List FnId) :
     (split ids ref).1.Sublist ids ∧ (split ids ref).2.Sublist ids := by
   fun_induction split ids ref with
   | case1 => simp
-  | case2 f fs ih => exact ⟨List.Sublist.cons _ ih.1, List.Sublist.cons₂ _ ih.2⟩
-  | case3 f fs r rs h ih => exact ⟨List.Sublist.cons _ ih.1, List.Sublist.cons₂ _ ih.2⟩
+  | case2 f fs ih => exact ⟨List.Sublist.cons _ ih.1, List.Sublist.cons_cons _ ih.2⟩
+  | case3 f fs r rs h ih => exact ⟨List.Sublist.cons _ ih.1, List.Sublist.cons_cons _ ih.2⟩
   | case4 f fs r rs h1 h2 ih => exact ih
-  | case5 f fs r rs h1 h2 ih => exact ⟨List.Sublist.cons₂ _ ih.1, List.Sublist.cons _ ih.2⟩
+  | case5 f fs r rs h1 h2 ih => exact ⟨List.Sublist.cons_cons _ ih.1, List.Sublist.cons _ ih.2⟩
 
 end W2c2Verif.Model.Split
